@@ -105,21 +105,9 @@ mod imp {
             Box::pin(smol::future::yield_now())
         }
     }
+    /// the library's own runtime entry point (what `#[hannibal::main]` expands to), for every runtime feature
     pub fn block_on<F: Future>(f: F) -> F::Output {
-        #[cfg(feature = "rt_tokio")]
-        {
-            use std::sync::OnceLock;
-            static RT: OnceLock<tokio::runtime::Runtime> = OnceLock::new();
-            RT.get_or_init(|| tokio::runtime::Builder::new_multi_thread().worker_threads(2).enable_all().build().unwrap()).block_on(f)
-        }
-        #[cfg(feature = "rt_async")]
-        {
-            async_std::task::block_on(f)
-        }
-        #[cfg(feature = "rt_smol")]
-        {
-            smol::block_on(f)
-        }
+        hannibal::runtime::block_on(f)
     }
 }
 
